@@ -66,7 +66,7 @@ def real_groups(tier, seed):
     if tier == "quick":
         ts = ("double", "float")
         combos = [(isa, ts[(k + seed) % 2]) for k, isa in enumerate(core.QUICK_ISAS)]
-    sizes = [3, 8, 9, 17] if tier == "quick" else [1, 2, 3, 4, 5, 7, 8, 9, 12, 16, 17, 20, 32, 33, 65]
+    sizes = [3, 8, 9, 17] if tier == "quick" else [1, 2, 3, 4, 5, 7, 8, 9, 12, 17, 20, 33]
     groups = []
     for isa, t in combos:
         calls = []
